@@ -2,7 +2,8 @@
  S1 (E-PTS) no mutable static storage, no stateful external callee
  S2 (E-UNINIT) every byte of a stack/heap struct or scalar that is read - locally, by a callee, or copied out - was definitely
     written first; a constructor returns an object whose scalar (non-union) fields are all written
-Not decided: element-wise initialisation of heap/stack arrays."""
+S3 heap arrays written by position must be written on every iteration before being read whole.
+Not decided: arrays filled through a separate cursor or read only under per-element guards."""
 import os
 from ..report import Run, Finding, rel
 from ..common import lib_module, configs_for, need_fn
@@ -10,7 +11,7 @@ from ..build import AnalysisBroken, build_module, VERIF
 from ..ir import Module
 from ..core import World
 from ..pts import STATEFUL, ALLOC_FAMILY, is_pure_external
-from ..uninit import Engine, loc, rng, mask_ranges, field_names, constructor_states, ALL
+from ..uninit import Engine, loc, rng, mask_ranges, field_names, constructor_states, ALL, array_init
 
 PROP = "C15"
 ANCHORS = ["varintAdaptiveEncodeWith", "varintAdaptiveDecode", "varintFOREncode", "varintFORBatchEncode", "varintPFORDecode",
@@ -55,6 +56,11 @@ def analyse(mod, run, label):
             run.fail(Finding("S2-read-before-write", f.name, "promoted-local", i.op, "an uninitialised local scalar (undef after mem2reg) is used by %s at %s" % (i.op, loc(i)), loc=loc(i)))
         # discharged reads
         for _ in range(max(0, fu.nreads - len(seen))): run.ok("S2-read-after-write")
+        # S3: positional heap arrays
+        ar, ntr = array_init(eng, f)
+        for (mi, ri, why) in ar:
+            run.fail(Finding("S3-array-partially-written", f.name, "malloc@%s" % mi.line, "reader", why, loc=loc(ri)))
+        for _ in range(max(0, ntr - len(ar))): run.ok("S3-positional-arrays-filled", {"fn": f.name})
         # constructors
         for (t, root, stmask) in constructor_states(fu):
             o = fu.objs[root]
@@ -76,7 +82,7 @@ def controls(run):
     analyse(m, probe, "control")
     got = {(f.rule, f.function) for f in probe.findings}
     for rule, fn in [("S1-mutable-static", "<module>"), ("S2-read-before-write", "ctl_uninit_local"), ("S2-read-before-write", "ctl_uninit_callee"),
-                     ("S2-read-before-write", "ctl_uninit_copyout"), ("S2-constructor-incomplete", "ctl_ctor_partial"), ("S1-stateful-callee", "ctl_stateful_callee")]:
+                     ("S2-read-before-write", "ctl_uninit_copyout"), ("S2-constructor-incomplete", "ctl_ctor_partial"), ("S1-stateful-callee", "ctl_stateful_callee"), ("S3-array-partially-written", "ctl_array_partial")]:
         run.control("%s/%s" % (rule, fn), (rule, fn) in got)
     clean = [(f.rule, f.function) for f in probe.findings if "clean" in f.function]
     run.control("silent on clean controls %s" % clean, not clean)
